@@ -210,10 +210,22 @@ def r2(ctx):
             if cv.get('op') != '<<' or len(cv.get('args', [])) != 2:
                 continue
             for l2 in leaves(fn, cv['args'][1]):
-                if l2 in ('this.m_minValue', 'this.m_maxValue') and len(fn.params) == 3:
-                    cond_leaves.setdefault(l2, set())
-                    cond_leaves[l2] |= bitcounts(fn, c)
-        partial = sorted(l for l, bc in cond_leaves.items() if admit is not None and not admit <= bc)
+                cond_leaves.setdefault(l2, set())
+                cond_leaves[l2] |= bitcounts(fn, c)
+        # bit counts for which an object is constructed at all in this overload
+        built = set()
+        for n in news:
+            built |= bitcounts(fn, n)
+        partial = []
+        for l, bc in sorted(cond_leaves.items()):
+            if l not in keyleaves or built <= bc:
+                continue
+            if l in ('this.m_minValue', 'this.m_maxValue') and len(fn.params) == 3:
+                # a range can only differ for the bit counts derive(min, max, inc) admits
+                if admit is not None and not admit <= bc:
+                    partial.append(l)
+            else:
+                partial.append(l)      # any other key part must be present for every bit count
         for n in news:
             init = fn.nodes[n].get('init')
             if init is None:
